@@ -347,6 +347,9 @@ func (w *enumWorld) Exec(p *Plan, st *RunStats) *Violation {
 		} else {
 			safely(o, op, func() { s.Step(op, o) })
 		}
+		if traceOn {
+			trace("op %d %s -> %016x", op.ID, op.N, hashStr(s.Obs()))
+		}
 		if o.Failed() {
 			break
 		}
